@@ -17,23 +17,29 @@ import (
 	"time"
 
 	"github.com/google/uuid"
+	"google.golang.org/grpc"
+	"google.golang.org/grpc/credentials/insecure"
 	"google.golang.org/grpc/status"
 	"google.golang.org/protobuf/encoding/protojson"
 	"google.golang.org/protobuf/proto"
 
 	"go.6river.tech/mmmbbb/actions"
+	"go.6river.tech/mmmbbb/defaults"
 	"go.6river.tech/mmmbbb/ent"
+	"go.6river.tech/mmmbbb/internal"
 	"go.6river.tech/mmmbbb/ent/enttest"
 	"go.6river.tech/mmmbbb/internal/sqltypes"
 )
 
 type vScenario struct {
+	Wire    bool                        `json:"wire"`
 	BaseNow string                      `json:"base_now"`
 	Rows    map[string][]map[string]any `json:"rows"`
 	Ops     []map[string]any            `json:"ops"`
 }
 
 type vCtx struct {
+	conn     *grpc.ClientConn
 	history  []map[string]any
 	t        *testing.T
 	client   *ent.Client
@@ -534,7 +540,23 @@ func (v *vCtx) grpcOp(ctx context.Context, op map[string]any, res map[string]any
 		cctx, cancel = context.WithTimeout(ctx, time.Duration(ms)*time.Millisecond)
 		defer cancel()
 	}
-	outs := m.Call([]reflect.Value{reflect.ValueOf(cctx), req})
+	var outs []reflect.Value
+	if v.conn != nil {
+		// over the wire: through the real server with its interceptor chain
+		svcName := "google.pubsub.v1.Publisher"
+		if op["service"] == "subscriber" {
+			svcName = "google.pubsub.v1.Subscriber"
+		}
+		resp := reflect.New(m.Type().Out(0).Elem())
+		err := v.conn.Invoke(cctx, "/"+svcName+"/"+op["method"].(string), req.Interface(), resp.Interface())
+		if err != nil {
+			outs = []reflect.Value{reflect.Zero(m.Type().Out(0)), reflect.ValueOf(&err).Elem()}
+		} else {
+			outs = []reflect.Value{resp, reflect.Zero(reflect.TypeOf((*error)(nil)).Elem())}
+		}
+	} else {
+		outs = m.Call([]reflect.Value{reflect.ValueOf(cctx), req})
+	}
 	if !outs[1].IsNil() {
 		err := outs[1].Interface().(error)
 		res["err"] = err.Error()
@@ -579,9 +601,22 @@ func TestVerifReplay(t *testing.T) {
 			// re-decode ops/rows with plain numbers for convenience
 			_ = json.Unmarshal(b, &sc)
 			ctx := context.Background()
-			client := enttest.ClientForTest(t)
+			var client *ent.Client
+			var conn *grpc.ClientConn
+			if sc.Wire {
+				client = initGrpcService(t, []ReadyCheck{mockReady{nil}})
+				port := internal.ResolvePort(defaults.Port, defaults.GRPCOffset)
+				var err error
+				conn, err = grpc.NewClient(fmt.Sprintf("localhost:%d", port), grpc.WithTransportCredentials(insecure.NewCredentials()))
+				if err != nil {
+					t.Fatal(err)
+				}
+				defer conn.Close()
+			} else {
+				client = enttest.ClientForTest(t)
+			}
 			bn, _ := new(big.Int).SetString(sc.BaseNow, 10)
-			v := &vCtx{t: t, client: client, realBase: time.Now(), baseNow: bn}
+			v := &vCtx{t: t, client: client, realBase: time.Now(), baseNow: bn, conn: conn}
 			v.insertRows(ctx, &sc)
 			out := map[string]any{"pre": v.dump(ctx)}
 			var results []map[string]any
